@@ -1205,6 +1205,34 @@ impl<'a> Sim<'a> {
             self.stop = true;
             return;
         };
+        // fault: the consensus engine of one node restarts alone between FinalizeBlock and Commit. The
+        // application survives with its uncommitted work; the engine's handshake finds the app one
+        // height behind its block store and replays the block: FinalizeBlock again, then Commit.
+        if let Some((n, 4, _)) = crash {
+            if finalized.contains(&n) && self.nodes[n].is_up() {
+                self.stats.fault("consensus-engine.restart.between-finalize-and-commit");
+                self.trace.ev(&format!("engine-restart node={n} h={h}: FinalizeBlock redelivered"));
+                let req = world::finalize_request(&prop.hd, prop.hash, prop.txs.clone(), last_commit.clone());
+                let node = &mut self.nodes[n];
+                let storage = node.storage.clone();
+                let res = guarded(node.app.as_mut().unwrap().finalize_block(req, storage)).await;
+                self.nodes[n].path.push('F');
+                match res {
+                    Ok(resp) => {
+                        let dbg = format!("{resp:?}");
+                        if dbg != canon_dbg {
+                            self.viol.push("C05", "finalize-response-differs", "redelivered-finalize-block", self.step, format!("h={h}: node {n} answered the redelivered FinalizeBlock differently: {}", first_diff(&canon_dbg, &dbg)));
+                        }
+                    }
+                    Err((panicked, e)) => {
+                        let sig = format!("redelivered:{}:{}", if panicked { "panic" } else { "error" }, err_class(&e));
+                        self.viol.push("C05", "finalize-failed", &sig, self.step, format!("h={h}: node {n} (path {}) failed on FinalizeBlock redelivered after a restart of its consensus engine: {e}", self.nodes[n].path));
+                        self.trace.ev(&format!("finalize h={h} node={n} FAILED on redelivery"));
+                        self.nodes[n].dead = true;
+                    }
+                }
+            }
+        }
         let crashed_before_commit = do_crash(self, 3);
         let mut roots: Vec<(usize, Vec<u8>)> = Vec::new();
         for n in &finalized {
